@@ -92,3 +92,9 @@ for m in CORPUS:
         m.old = "    except JSONParseError as error:"
         m.new = "    except Exception as error:"
 CORPUS = [m for m in CORPUS if m.id != 'c13-copied-registry']
+CORPUS += [
+    Mut('c13-callable-model-forwards-only-the-first-event', 'torchtree/core/model.py', 'CallableModel.handle_model_changed', 'self.lp_needs_update = True', 'if self.lp_needs_update:\n    return\nself.lp_needs_update = True',
+        expect=[('C13.U', 'handlers::torchtree.core.model.CallableModel::handle_model_changed::forwards-every-event')]),
+    Mut('c13-benign-callable-model-handlers-share-a-helper', 'torchtree/core/model.py', '', "    def handle_model_changed(self, model, obj, index) -> None:\n        self.lp_needs_update = True\n        self.fire_model_changed(self)\n",
+        "    def handle_model_changed(self, model, obj, index) -> None:\n        self._invalidate()\n\n    def _invalidate(self) -> None:\n        self.lp_needs_update = True\n        self.fire_model_changed(self)\n", benign=True, mode='text'),
+]
